@@ -426,9 +426,11 @@ def m_checked(eng, call, args):
 
 @pattern(r"^std::num::<impl (usize|u32|u64|u16|u8)>::(saturating|wrapping)_(add|sub|mul)$")
 def m_sat(eng, call, args):
-    n = " ".join(call["norm_names"])
-    m = re.search(r"impl (\w+)>::(\w+)_(\w+)$", n.split(" ")[0])
-    return mk(m.group(2) + "_" + m.group(3), args[0], args[1], m.group(1))
+    for n in call["norm_names"]:
+        m = re.search(r"impl (\w+)>::(saturating|wrapping)_(\w+)$", n)
+        if m:
+            return mk(m.group(2) + "_" + m.group(3), args[0], args[1], m.group(1))
+    return mk("ext", "sat_or_wrap", *args)
 
 
 # ---------------------------------------------------------------------------------------------------------
